@@ -57,13 +57,19 @@ def prepare(sc, key):
     blob = open(plain, "rb").read()
     gen.write(os.path.join(d, key + "-old.journal.gz"), gen.gz_bytes(blob, mtime=old))
     gen.write(os.path.join(d, key + "-old.tar"), gen.tar_bytes([("var/log/journal/" + key + ".journal", blob)], mtime=old))
+    # ... and archives that hold the journal under journald's own (long) path: beyond the 100 bytes of a tar name field
+    import tarfile
+    longp = "var/log/journal/0123456789abcdef0123456789abcdef/system@00061c5e4a8e4b4f9a0b1c2d3e4f5a6b-000000000001b2c3-0005f7a1b2c3d4e5.journal"
+    gen.write(os.path.join(d, key + "-long-gnu.tar"), gen.tar_bytes([(longp, blob)], fmt=tarfile.GNU_FORMAT, mtime=old))
+    gen.write(os.path.join(d, key + "-long-pax.tar"), gen.tar_bytes([(longp, blob)], fmt=tarfile.PAX_FORMAT, mtime=old))
     for fn in (key + ".journal", key + "-old.journal.gz", key + "-old.tar"):
         os.utime(os.path.join(d, fn), (old, old))
     return d, plain, truth
 
 
 def form_file(k, fm):
-    return {":oldgz": k + "-old.journal.gz", ":oldtar": k + "-old.tar"}.get(fm, k + ".journal" + fm)
+    return {":oldgz": k + "-old.journal.gz", ":oldtar": k + "-old.tar", ":longtar-gnu": k + "-long-gnu.tar",
+            ":longtar-pax": k + "-long-pax.tar"}.get(fm, k + ".journal" + fm)
 
 
 def cli_us(us):
@@ -174,13 +180,14 @@ def run(pid, tier, seed):
             forms = [""] + ["." + f for f in JOURNALS[k][1]]
             if tier == "quick" and len(forms) > 2:
                 forms = ["", rng.choice(forms[1:])]
-            forms += [":oldgz", ":oldtar"] if (tier == "thorough" or small) else [rng.choice([":oldgz", ":oldtar"])]
+            forms += [":oldgz", ":oldtar", ":longtar-gnu", ":longtar-pax"] if (tier == "thorough" or small) else \
+                     [rng.choice([":oldgz", ":oldtar"]), rng.choice([":longtar-gnu", ":longtar-pax"])]
             for o in outs:
                 for fm in forms:
                     ws = wins if (small or o == "short") else wins[:6]
                     if fm and not small:
                         ws = ws[:3]
-                    if fm.startswith(":old") and not small:
+                    if fm.startswith(":") and not small:
                         ws = [(None, None), (inst[-1], None), (inst[len(inst) // 2], inst[-1]), (None, inst[0])]
                     for (a, b) in ws:
                         jobs.append((k, o, fm, a, b, "+00:00"))
